@@ -27,6 +27,8 @@ def confirm(src: str) -> dict:
     prop = json.load(open(os.path.join(src, 'meta.json')))['property'] if os.path.exists(os.path.join(src, 'meta.json')) else '?'
     n = os.path.basename(src.rstrip('/'))
     name = f'{prop}-{n}'
+    if not os.path.exists(os.path.join(src, 'meta.json')) or not os.path.exists(os.path.join(src, 'patch.diff')):
+        return {'seed': name, 'source': src, 'status': 'incomplete'}
     wt = tempfile.mkdtemp(prefix=f'seedwt_{name}_', dir='/tmp')
     os.rmdir(wt)
     res = {'seed': name, 'source': src}
